@@ -272,6 +272,8 @@ func runC20(c *Ctx) {
 				R.OK("C20.R2", key, cons, pos, "constant")
 			case isCallTo(st.Val, "strings.Join") != nil:
 				R.OK("C20.R2", key, cons, pos, "projection of the old value (joined filtered tokens)")
+			case constBuilt(st.Val):
+				R.OK("C20.R2", key, cons, pos, "assembled from constants only")
 			case vu != nil && strings.Contains(vs, pa.CalleeName(vu)+"("):
 				R.OK("C20.R2", key, cons, pos, "validURL's / the rewriter's result")
 			default:
@@ -302,7 +304,7 @@ func runC20(c *Ctx) {
 		n3 := 0
 		for i, w := range s3.Writes {
 			n3++
-			okW := w.Payload == "TokenString" || w.Payload == "Space" || w.Payload == "RawData"
+			okW := w.Payload == "TokenString" || w.Payload == "Space" || w.Payload == "RawData" || w.Payload == "Mixed"
 			R.Check(okW, "C20.R3", writeKey(s3, i), writeDescr(w), c.P.Pos(w.Call.Pos()), "written through Token.String (or a space, or raw data)", "a token is serialised by something other than Token.String ("+w.Detail+"): what the next pass reads back is no longer guaranteed to be what this pass wrote (characters the tokenizer normalises — CR, NUL — or entity forms can differ)")
 		}
 		R.Role("C20.R3", "destination writes in sanitize", n3, 6)
